@@ -10,6 +10,7 @@ CONSTANTS
   Entries = {"run", "call", "evaluate"}
   TracerStyles = {"none", "native", "calls"}
   Threadeds = {FALSE, TRUE}
+  Givens = {}
   Flags = {}
 INVARIANT Restored
 INVARIANT Contained
